@@ -111,54 +111,77 @@ Proof.
     apply lp_removelast. exact H.
 Qed.
 
+(* non-probe segments are never larger than the proven segment size (m = min_ss) *)
+Definition np_le (m : Z) (l : list seg) : Prop :=
+  Forall (fun g => sg_probe g = false -> sg_size g <= m) l.
+
+Lemma ev_np m l l' : Forall2 seg_ev l l' -> np_le m l -> np_le m l'.
+Proof.
+  unfold np_le. induction 1 as [|x y xs ys (Hp & Hs & _ & _) _ IH]; intro H; [constructor|].
+  inversion H as [|? ? Hx Hr]; subst. constructor; [|auto]. rewrite Hp, Hs. exact Hx.
+Qed.
+
+Lemma np_mono m m' l : m <= m' -> np_le m l -> np_le m' l.
+Proof.
+  intros Hm H. unfold np_le in *. eapply Forall_impl; [|exact H]. cbn. intros g Hg Hp.
+  specialize (Hg Hp). lia.
+Qed.
+
 (* the facts about the table of one connection that are not byte accounting *)
-Definition segs_aux (q : Z -> Prop) (l : list seg) : Prop :=
-  Forall seg_time_ok l /\ no_live (removelast l) /\ lp_all q l.
+Definition segs_aux (q : Z -> Prop) (m : Z) (l : list seg) : Prop :=
+  Forall seg_time_ok l /\ no_live (removelast l) /\ lp_all q l /\ np_le m l.
 
-Lemma aux_ev q l l' : Forall2 seg_ev l l' -> segs_aux q l -> segs_aux q l'.
+Lemma aux_ev q m l l' : Forall2 seg_ev l l' -> segs_aux q m l -> segs_aux q m l'.
 Proof.
-  intros H (A & B & C). split; [eapply ev_time; eauto|].
-  split; [eapply ev_lp; [apply ev_removelast; exact H|exact B]|eapply ev_lp; eauto].
+  intros H (A & B & C & D). split; [eapply ev_time; eauto|].
+  split; [eapply ev_lp; [apply ev_removelast; exact H|exact B]|].
+  split; [eapply ev_lp; eauto|eapply ev_np; eauto].
 Qed.
 
-Lemma aux_suffix q a b : segs_aux q (a ++ b) -> segs_aux q b.
+Lemma aux_suffix q m a b : segs_aux q m (a ++ b) -> segs_aux q m b.
 Proof.
-  intros (A & B & C). apply Forall_app in A. apply lp_app in C.
-  split; [tauto|]. split; [eapply removelast_suffix_lp; exact B|tauto].
+  intros (A & B & C & D). apply Forall_app in A. apply lp_app in C. apply Forall_app in D.
+  split; [tauto|]. split; [eapply removelast_suffix_lp; exact B|]. split; tauto.
 Qed.
 
-Lemma aux_prefix q a b : segs_aux q (a ++ b) -> segs_aux q a.
+Lemma aux_prefix q m a b : segs_aux q m (a ++ b) -> segs_aux q m a.
 Proof.
-  intros (A & B & C). apply Forall_app in A. apply lp_app in C.
-  split; [tauto|]. split; [eapply removelast_prefix_lp; exact B|tauto].
+  intros (A & B & C & D). apply Forall_app in A. apply lp_app in C. apply Forall_app in D.
+  split; [tauto|]. split; [eapply removelast_prefix_lp; exact B|]. split; tauto.
 Qed.
 
 (* popping the last segment leaves no live probe at all *)
-Lemma aux_pop q a g : segs_aux q (a ++ [g]) -> no_live a.
+Lemma aux_pop q m a g : segs_aux q m (a ++ [g]) -> no_live a.
 Proof.
   intros (_ & B & _). rewrite removelast_app_ne in B by discriminate.
   cbn [removelast] in B. rewrite app_nil_r in B. exact B.
 Qed.
 
-Lemma aux_weaken (q q' : Z -> Prop) l : (forall z, q z -> q' z) -> segs_aux q l -> segs_aux q' l.
-Proof. intros Hq (A & B & C). split; [exact A|]. split; [exact B|eapply lp_weaken; eauto]. Qed.
+Lemma aux_weaken (q q' : Z -> Prop) m l : (forall z, q z -> q' z) -> segs_aux q m l -> segs_aux q' m l.
+Proof. intros Hq (A & B & C & D). split; [exact A|]. split; [exact B|]. split; [eapply lp_weaken; eauto|exact D]. Qed.
 
-Lemma aux_no_live q l : Forall seg_time_ok l -> no_live l -> segs_aux q l.
+Lemma aux_mono q m m' l : m <= m' -> segs_aux q m l -> segs_aux q m' l.
+Proof. intros Hm (A & B & C & D). split; [exact A|]. split; [exact B|]. split; [exact C|eapply np_mono; eauto]. Qed.
+
+Lemma aux_no_live q m l : Forall seg_time_ok l -> no_live l -> np_le m l -> segs_aux q m l.
 Proof.
-  intros A B. split; [exact A|]. split; [apply lp_removelast; exact B|apply no_live_lp; exact B].
+  intros A B D. split; [exact A|]. split; [apply lp_removelast; exact B|]. split; [apply no_live_lp; exact B|exact D].
 Qed.
 
 (* appending a never-sent segment behind a table without live probe *)
-Lemma aux_enqueue (q : Z -> Prop) l g :
-  Forall seg_time_ok l -> no_live l -> sg_sent g = NotSent ->
-  (live_probe g = true -> q (sg_size g)) -> segs_aux q (l ++ [g]).
+Lemma aux_enqueue (q : Z -> Prop) m l g :
+  Forall seg_time_ok l -> no_live l -> np_le m l -> sg_sent g = NotSent ->
+  (live_probe g = true -> q (sg_size g)) -> (sg_probe g = false -> sg_size g <= m) ->
+  segs_aux q m (l ++ [g]).
 Proof.
-  intros A B Hs Hq. split.
+  intros A B D Hs Hq Hm. split.
   - apply Forall_app. split; [exact A|]. constructor; [|constructor].
     unfold seg_time_ok, seg_last_sent. rewrite Hs. exact I.
   - split.
     + rewrite removelast_app_ne by discriminate. cbn [removelast]. rewrite app_nil_r. exact B.
-    + apply lp_app. split; [apply no_live_lp; exact B|]. constructor; [exact Hq|constructor].
+    + split.
+      * apply lp_app. split; [apply no_live_lp; exact B|]. constructor; [exact Hq|constructor].
+      * apply Forall_app. split; [exact D|]. constructor; [exact Hm|constructor].
 Qed.
 
 (* ------------------------------------------------------------------ remove_up_to_ack *)
@@ -222,12 +245,12 @@ Proof.
   rewrite wadd16_wadd16. f_equal. f_equal. lia.
 Qed.
 
-Lemma remove_up_to_ack_aux q t now ack sk t' r :
+Lemma remove_up_to_ack_aux q m t now ack sk t' r :
   remove_up_to_ack t now ack sk = (t', r) ->
-  segs_aux q (ss_segs t) -> segs_aux q (ss_segs t').
+  segs_aux q m (ss_segs t) -> segs_aux q m (ss_segs t').
 Proof.
   intros H Ha. destruct (remove_up_to_ack_struct _ _ _ _ _ _ H) as (a & b & d & E & Hev & _).
-  rewrite E in Ha. apply aux_suffix in Ha. apply (aux_ev _ _ _ Hev) in Ha.
+  rewrite E in Ha. apply aux_suffix in Ha. apply (aux_ev _ _ _ _ Hev) in Ha.
   eapply aux_suffix; exact Ha.
 Qed.
 
@@ -379,7 +402,7 @@ Proof. destruct m as [s a|s e|]; cbn [spx sp]; tauto. Qed.
 
 (* ---- the extended invariant: byte accounting (vs_inv_p) + the per-segment facts + the clock ---- *)
 Definition sx (q : Z -> Prop) (s : vsock) : Prop :=
-  segs_aux q (ss_segs (v_segs s)) /\ 0 <= v_now s <= SAMPLE_BOUND.
+  segs_aux q (min_ss (v_ss s)) (ss_segs (v_segs s)) /\ 0 <= v_now s <= SAMPLE_BOUND.
 
 Definition vs_x (ti tm p : Z) (q : Z -> Prop) (s : vsock) : Prop :=
   vs_inv_p ti tm p s /\ sx q s.
@@ -393,8 +416,8 @@ Proof. intro H. exists p. exact H. Qed.
 Lemma x_same_core ti tm p q s s' : vs_x ti tm p q s -> same_core s s' -> vs_x ti tm p q s'.
 Proof.
   intros [H1 [H2 H3]] Hc. split; [eapply inv_same_core; eauto|].
-  destruct Hc as (_ & _ & E3 & _ & _ & _ & _ & _ & _ & _ & _ & E12 & _).
-  unfold sx. rewrite E3, E12. auto.
+  destruct Hc as (_ & _ & E3 & E4 & _ & _ & _ & _ & _ & _ & _ & E12 & _).
+  unfold sx. rewrite E3, E4, E12. auto.
 Qed.
 
 Lemma x_weaken ti tm p (q q' : Z -> Prop) s : (forall z, q z -> q' z) -> vs_x ti tm p q s -> vs_x ti tm p q' s.
@@ -530,7 +553,7 @@ Proof.
   split.
   - eapply inv_update; [exact H1|..]; rewrite ?E3, ?E4, ?E5, ?E6; try assumption; try reflexivity; try lia;
       apply (inv_parts _ _ _ _ H1).
-  - unfold sx. rewrite E3, E11. auto.
+  - unfold sx. rewrite E3, E4, E11. auto.
 Qed.
 
 End PollAux.
